@@ -104,7 +104,7 @@ func c11r1(r *R) {
 	fns := []*ssa.Function{hl}
 	eachInstr(hl, func(ins ssa.Instruction) {
 		if c, ok := ins.(*ssa.Call); ok {
-			if sc := staticCallee(c.Common()); sc != nil && strings.HasPrefix(fname(sc), "(*martian.Proxy).") && len(sc.Blocks) > 0 && sc.Name() != "closing" {
+			if sc := staticCallee(c.Common()); sc != nil && strings.HasPrefix(fname(sc), "(*martian.Proxy).") && len(sc.Blocks) > 0 && refName(sc) != "closing" {
 				fns = append(fns, sc)
 			}
 		}
